@@ -568,7 +568,7 @@ class Assembler:
 
     def spec_text(self, fs, text, fn_emit_name, kind):
         """turn labelled spec text into Verus clause text; register line ranges lazily via markers"""
-        clauses = VS.split_clauses(text)
+        clauses = VS.split_clauses(text) if isinstance(text, str) else text
         out = []
         section = None
         for sec, labels, body in clauses:
@@ -662,12 +662,21 @@ class Assembler:
         # spec
         text = fs.spec
         if mode == "strict":
-            text = fs.strict
+            # the strict twin carries the home spec with the clauses named in %strict replaced by
+            # the text exactly as the property states it
+            base = VS.split_clauses(fs.spec)
+            over = {tuple(c[1]): c for c in VS.split_clauses("ensures\n" + fs.strict) if c[1]}
+            missing = [k for k in over if not any(tuple(c[1] or ()) == k for c in base)]
+            if missing:
+                raise ExtractError(f"{fs.path}: %strict names labels that the %spec does not carry: {missing}")
+            text = [list(over.get(tuple(c[1] or ()), c)) for c in base]
+            for c in text:
+                c[0] = c[0] or "ensures"
         if mode == "canary":
             # requires only
             cl = [c for c in VS.split_clauses(fs.spec) if c[0] == "requires"]
             text = "requires\n" + "\n".join(c[2] for c in cl) + "\n" if cl else ""
-        spec = self.spec_text(fs, text, emit_name, mode) if text.strip() else ""
+        spec = self.spec_text(fs, text, emit_name, mode) if (text if not isinstance(text, str) else text.strip()) else ""
         if spec:
             inserts.append(Ins(body_open, spec, f"spec:{fs.path}:{mode}", 1))
 
